@@ -22,6 +22,10 @@ from props.c11_roundtrip import draw_options, trig_only_of
 def canon_event(read):
     """Digest-able form of io_common.read_event output."""
     def conv(x):
+        if isinstance(x, str) and x == "not-in-file":
+            # "this kind of data is not in the file at all" and "nothing recorded for this
+            # event" are the same answer at the event level
+            return None
         if isinstance(x, dict):
             return {k: conv(v) for k, v in x.items()}
         if isinstance(x, (list, tuple)):
@@ -29,14 +33,20 @@ def canon_event(read):
         if isinstance(x, np.ndarray):
             return x if x.dtype != object else [conv(v) for v in x.tolist()]
         return x
-    return conv(read)
+    out = conv(read)
+    # "no component trigger table" and "no component triggered" coincide at the event level
+    if not out.get("components"):
+        out["components"] = []
+    if not any(out.get("component_rows") or []):
+        out["component_rows"] = []
+    return out
 
 
 class C12Access(Machine):
     prop_id = "C12"
     name = "access"
     level = "exploration"
-    budget = {"quick": 640, "thorough": 40000}
+    budget = {"quick": 560, "thorough": 40000}
     max_steps = 14
     rule = ("seeded histories: 2-8 events with ragged rows written in one session (reference) and split "
             "into 1-4 append sessions with restarts and clock jumps (also backwards), then <=12 reader "
@@ -104,7 +114,11 @@ class C12Access(Machine):
         out = []
         for i, s in enumerate(sizes):
             out.append({"n": s, "mode": (rng.pick(["w", "x"]) if i == 0 else rng.pick(["a", "r+"])),
-                        "jump": rng.pick([60.0, 3600.0, 86400.0 * 40, -7200.0, -86400.0 * 400])})
+                        "jump": rng.pick([60.0, 3600.0, 86400.0 * 40, -7200.0, -86400.0 * 400]),
+                        # positions (within the session) before which an add is rejected: the
+                        # rejected event's rows stay behind as a gap between accepted events
+                        "rejects": sorted(set(rng.randrange(0, s + 1) for _ in range(rng.pick([0, 0, 1, 2]))))
+                        if s else []})
         return out
 
     def draw_op(self, rng):
@@ -170,7 +184,11 @@ class C12Access(Machine):
                                 require_trigger=self.cfg["require_trigger"])
             self.sut(w.open, where="writer.open(%s)" % mode)
             self.sut(w.set_detector, self.world.detector, where="set_detector")
-            for spec in specs[pos:pos + sess["n"]]:
+            for local_i, spec in enumerate(specs[pos:pos + sess["n"]] + [None]):
+                if local_i in sess.get("rejects", []):
+                    self._rejected_add(w, 100 + pos + local_i)
+                if spec is None:
+                    break
                 # identical random stream per event in every file: same noise
                 self.np.reseed(1000 + spec["tag"])
                 event = self.world.make_event(spec)
@@ -187,6 +205,29 @@ class C12Access(Machine):
             # restart: the writer object is dropped, only the disk survives
             del w
         self.files[label] = len(specs)
+
+    def _rejected_add(self, w, tag):
+        """An add() that is rejected after part of its rows were written."""
+        spec = {"tag": tag, "np": 2, "rays": [1] * self.cfg["n_ant"], "tree": "roots",
+                "trig": {"type": "bool", "global": True}}
+        self.np.reseed(5000 + tag)
+        event = self.world.make_event(spec)
+        self.world.load_antennas(spec, reset_noise=True)
+        paths, pols = self.world.ray_args(spec)
+        try:
+            # unsupported trigger type: raised by the trigger stage (or, when triggers are not
+            # consulted by this option set, the add simply is an ordinary extra... so use rays)
+            if self.opts["rays"]:
+                w.add(event, triggered=True, ray_paths=paths[:-1] + [paths[-1] + paths[-1]],
+                      polarizations=pols, events_thrown=1)
+            else:
+                w.add(event, triggered="yes", ray_paths=paths, polarizations=pols, events_thrown=1)
+        except (ValueError, TypeError):
+            self.count("fault.rejected_add_in_session")
+            return
+        # this option set never looks at the faulty argument: the add was an accepted event,
+        # which would change the event stream -> not a history of this machine
+        raise Skip("rejected add not applicable to the option set")
 
     def _open_reader(self, label, slice_range=None, via="reader"):
         P = self.pyrex
